@@ -311,7 +311,7 @@ impl Polygon3D {
                         let vertex_to_add = if outer_normal.is_same_direction(inner_normal) {
                             // If both in the same direction, then we need to
                             // add the interior in reverse.
-                            (inner_vertex_id as i32 - j as i32) as usize % n_inner_loop_vertices
+                            (inner_vertex_id + n_inner_loop_vertices - j) % n_inner_loop_vertices
                         } else {
                             (inner_vertex_id as i32 + j as i32) as usize % n_inner_loop_vertices
                         };
